@@ -32,6 +32,7 @@ pub struct P {
 
 impl P {
     pub fn new(id: u64) -> P {
+        let _h = crate::heap::harness();
         let serial = NEXT_SERIAL.fetch_add(1, Ordering::SeqCst);
         rt().log_api(json!({"e":"born","t":tid(),"s":serial,"v":id}));
         P { id, serial, chk: chk(id, serial) }
@@ -50,6 +51,7 @@ impl P {
 
     /// Observes the value in place for a while (used by view closures); returns the id seen
     pub fn observe(&self, what: &str) -> u64 {
+        let _h = crate::heap::harness();
         let a = self.snapshot();
         let valid = a.2 == chk(a.0, a.1);
         let s = if valid { a.1 } else { 0 };
@@ -65,6 +67,7 @@ impl P {
 
 impl Clone for P {
     fn clone(&self) -> P {
+        let _h = crate::heap::harness();
         let a = self.snapshot();
         let valid = a.2 == chk(a.0, a.1);
         let s = if valid { a.1 } else { 0 };
@@ -81,6 +84,7 @@ impl Clone for P {
 
 impl Drop for P {
     fn drop(&mut self) {
+        let _h = crate::heap::harness();
         let a = self.snapshot();
         let valid = a.2 == chk(a.0, a.1);
         let s = if valid { a.1 } else { 0 };
